@@ -275,8 +275,34 @@ var ruleZipMarkers = &core.Rule{ID: "R19.1", Min: 8,
 			// apk markers: every call to the walker uses msoCheck false and returns true on a hit
 			n := 0
 			if apk[0].DetFn != nil {
-				for _, ci := range core.Calls(apk[0].DetFn) {
+				apkBodies := append([]*ssa.Function{apk[0].DetFn}, apk[0].DetFn.AnonFuncs...)
+				var apkCalls []ssa.CallInstruction
+				for _, body := range apkBodies {
+					apkCalls = append(apkCalls, core.Calls(body)...)
+				}
+				rawOf := func(v ssa.Value) bool {
+					if v == ssa.Value(apk[0].DetFn.Params[0]) {
+						return true
+					}
+					// the header captured by a callback of the detector (a parameter is not assigned: the cell holds it)
+					if ld, ok := v.(*ssa.UnOp); ok && ld.Op == token.MUL {
+						if fv, ok := ld.X.(*ssa.FreeVar); ok {
+							return capturedParam(fv) == ssa.Value(apk[0].DetFn.Params[0])
+						}
+					}
+					return false
+				}
+				for _, ci := range apkCalls {
 					g := ci.Common().StaticCallee()
+					if g != nil && (g == zw.api || g == zw.walk) && ci.Parent() != apk[0].DetFn {
+						n++
+						mso, ok := core.ConstBool(ci.Common().Args[2])
+						s.Check(ok && !mso && rawOf(ci.Common().Args[0]), fmt.Sprintf("apk marker call #%d", n), c.Pos(ci.Pos()), "unmodified header, first-entry list off (inside a callback)", "the APK detector walks something other than the unmodified header or applies the OOXML first-entry list")
+						continue
+					}
+					if ci.Parent() != apk[0].DetFn {
+						continue
+					}
 					if flag, isFixed := zw.fixed[g]; isFixed && g != nil {
 						n++
 						s.Check(!flag && ci.Common().Args[0] == ssa.Value(apk[0].DetFn.Params[0]), fmt.Sprintf("apk marker call #%d", n), c.Pos(ci.Pos()), "unmodified header, first-entry list off", "the APK detector walks something other than the unmodified header or applies the OOXML first-entry list")
@@ -865,6 +891,15 @@ var ruleZipWalk = &core.Rule{ID: "R19.5", Min: 5,
 						}
 					}
 				}
+				// a library search whose callback only reads (the cursor it captures is not written, nothing else is
+				// called but byte comparisons) cannot move the walk either
+				if isStdGeneric(cc, "slices.ContainsFunc") || isStdGeneric(cc, "slices.IndexFunc") {
+					if mc, ok := cc.Args[len(cc.Args)-1].(*ssa.MakeClosure); ok {
+						if cb, ok := mc.Fn.(*ssa.Function); ok && readOnlyCallback(cb) {
+							okStep = true
+						}
+					}
+				}
 				if !okStep {
 					name := "dynamic call"
 					if g != nil {
@@ -900,4 +935,79 @@ func shortMime(m string) string {
 		return m[i+1:]
 	}
 	return m
+}
+
+// readOnlyCallback: the function stores nothing outside its own locals and calls only builtins and bytes comparisons.
+func readOnlyCallback(cb *ssa.Function) bool {
+	for _, b := range cb.Blocks {
+		for _, in := range b.Instrs {
+			switch x := in.(type) {
+			case *ssa.Store:
+				if al, ok := x.Addr.(*ssa.Alloc); !ok || al.Parent() != cb {
+					return false
+				}
+			case *ssa.MapUpdate, *ssa.Send, *ssa.Go, *ssa.Defer:
+				return false
+			case *ssa.Call:
+				if _, isB := x.Call.Value.(*ssa.Builtin); isB {
+					continue
+				}
+				g := x.Call.StaticCallee()
+				if g == nil || g.Pkg == nil || g.Pkg.Pkg.Path() != "bytes" {
+					return false
+				}
+			}
+		}
+	}
+	return true
+}
+
+// capturedParam: fv is bound to a cell of the enclosing function whose only
+// store is a parameter of that function; that parameter.
+func capturedParam(fv *ssa.FreeVar) ssa.Value {
+	g := fv.Parent()
+	parent := g.Parent()
+	if parent == nil {
+		return nil
+	}
+	idx := -1
+	for i, x := range g.FreeVars {
+		if x == fv {
+			idx = i
+		}
+	}
+	for _, ref := range *fv.Referrers() {
+		if st, ok := ref.(*ssa.Store); ok && st.Addr == ssa.Value(fv) {
+			return nil
+		}
+	}
+	for _, b := range parent.Blocks {
+		for _, in := range b.Instrs {
+			mc, ok := in.(*ssa.MakeClosure)
+			if !ok || mc.Fn != ssa.Value(g) || idx < 0 || idx >= len(mc.Bindings) {
+				continue
+			}
+			cell, ok := mc.Bindings[idx].(*ssa.Alloc)
+			if !ok {
+				return nil
+			}
+			var val ssa.Value
+			n := 0
+			for _, ref := range *cell.Referrers() {
+				if st, ok := ref.(*ssa.Store); ok {
+					if st.Addr != ssa.Value(cell) {
+						return nil
+					}
+					val = st.Val
+					n++
+				}
+			}
+			if n == 1 {
+				if _, isP := val.(*ssa.Parameter); isP {
+					return val
+				}
+			}
+		}
+	}
+	return nil
 }
